@@ -82,6 +82,12 @@ def run(ctx):
                     allow_violation=True, count_stats=False)
         if v not in r.violated:
             raise vlib.Infra("vacuity: %s is not reachable in ParallelEM" % v)
+    # nested job groups (Emissions -> Estimate on the same pool from a worker thread)
+    rn = ctx.tlc("PoolNested", "PoolNested.cfg", workers=4, timeout=900, label="nested")
+    ctx.log("PoolNested model: %d distinct states" % rn.distinct)
+    rv = ctx.tlc("PoolNested", "PoolNested_vac.cfg", workers=4, timeout=300, label="nested-vac", allow_violation=True, count_stats=False)
+    if "NoReentrancy" not in rv.violated:
+        raise vlib.Infra("vacuity: re-entrant outer frames are not reachable in PoolNested")
     ctx.extra["vacuity"] = "inline execution by main, main working inside Wait and stale slots of unused threads are all reachable in the model"
     # 2. the real code
     binary = ctx.go_build("pool", race=True)
@@ -157,7 +163,7 @@ def run(ctx):
                         "hooks observe EmStep and BaumWelchStep; the other per-thread accumulator sites are covered by the differential runs and the race detector"]
     return ctx.finish(
         rule="model: every interleaving of ParallelEM for the listed pool shapes; code: one recorded schedule per trace run "
-             "(scenario x pool size x buffer x GOMAXPROCS x seed) accepted by ParallelEMTrace, plus differential runs of 14 "
+             "(scenario x pool size x buffer x GOMAXPROCS x seed) accepted by ParallelEMTrace, plus differential runs of 15 "
              "estimator scenarios against the sequential result under the race detector; runs are distinct by configuration and seed",
         evaluations=diff, distinct_nontrivial=diff)
 
